@@ -3,6 +3,7 @@ package srvfam
 import (
 	"fmt"
 	"os"
+	"runtime"
 	"strconv"
 	"testing"
 
@@ -34,7 +35,11 @@ func TestRun(t *testing.T) {
 			os.WriteFile(prog, []byte(fmt.Sprintf("%d %s\n", i, scs[i].Name)), 0o644)
 		}
 		Run(t, scs[i], func(evs []vh.Event, stats map[string]int) {
-			hdr := vh.Event{"idx": i, "conc": scs[i].Opts.Conc, "push": scs[i].Opts.Push, "builtin": !scs[i].Opts.NoBuiltin}
+			conc := scs[i].Opts.Conc
+			if conc < 1 { // the documented default: "a value less than 1 uses runtime.NumCPU()"
+				conc = runtime.NumCPU()
+			}
+			hdr := vh.Event{"idx": i, "conc": conc, "push": scs[i].Opts.Push, "builtin": !scs[i].Opts.NoBuiltin}
 			for k, v := range stats {
 				hdr["st_"+k] = v
 			}
